@@ -351,9 +351,26 @@ impl Engine {
             }
             Op::HWrite { data, .. } | Op::HWriteAll { data, .. } => {
                 let all = matches!(op, Op::HWriteAll { .. });
-                let bytes = data.bytes();
-                self.trace.push(format!("h{}.{}({} bytes, seed {}) [pos {} len {}]", slot, if all { "write_all" } else { "write" }, bytes.len(), data.seed, h.pos, len));
-                let res = guard("h_write", || if all { h.stream.write_all(&bytes).map(|_| bytes.len()) } else { h.stream.write(&bytes) })?;
+                let mut bytes = data.bytes();
+                // every fourth write_all goes through Write::write_fmt (two pieces of printable ASCII)
+                let fmt = all && self.op_index % 4 == 2;
+                if fmt {
+                    for b in bytes.iter_mut() {
+                        *b = 0x20 + *b % 95;
+                    }
+                }
+                self.trace.push(format!("h{}.{}({} bytes, seed {}) [pos {} len {}]", slot, if fmt { "write_fmt" } else if all { "write_all" } else { "write" }, bytes.len(), data.seed, h.pos, len));
+                let res = guard("h_write", || {
+                    if fmt {
+                        let text = std::str::from_utf8(&bytes).unwrap_or("");
+                        let (a, b) = text.split_at(text.len() / 2);
+                        write!(h.stream, "{}{}", a, b).map(|_| bytes.len())
+                    } else if all {
+                        h.stream.write_all(&bytes).map(|_| bytes.len())
+                    } else {
+                        h.stream.write(&bytes)
+                    }
+                })?;
                 let k = match res {
                     Ok(k) => k,
                     Err(e) => return Err(Fail::new("mismatch|h_write|valid|Ok|Err", format!("write of {} bytes at {} on {} failed: {}", bytes.len(), h.pos, hp, e))),
@@ -432,22 +449,73 @@ impl Engine {
                 h.pos += k as u64;
             }
             Op::HReadUntil { byte, .. } => {
-                self.trace.push(format!("h{}.read_until({:#x}) [pos {} len {}]", slot, byte, h.pos, len));
-                let mut v = Vec::new();
-                let res = guard("h_read_until", || h.stream.read_until(*byte, &mut v))?;
-                if let Err(e) = res {
-                    return Err(Fail::new("mismatch|h_read_until|valid|Ok|Err", format!("read_until on {} failed: {}", hp, e)));
-                }
-                let data = stream_data(&self.model, &h.path);
+                let data = stream_data(&self.model, &h.path).to_vec();
                 let rest = &data[h.pos as usize..];
-                let want = match rest.iter().position(|b| b == byte) {
-                    Some(i) => &rest[..=i],
-                    None => rest,
-                };
-                if v != want {
-                    return Err(Fail::new("mismatch|h_read_until|bytes|model_bytes|other_bytes", describe_diff(&format!("{} read_until from {}", hp, h.pos), want, &v)));
+                match self.op_index % 3 {
+                    1 => {
+                        // BufRead::read_line: up to and including the first '\n', appended to a String;
+                        // text that is not UTF-8 -> InvalidData
+                        self.trace.push(format!("h{}.read_line() [pos {} len {}]", slot, h.pos, len));
+                        let want = match rest.iter().position(|&b| b == b'\n') {
+                            Some(i) => &rest[..=i],
+                            None => rest,
+                        };
+                        let mut text = String::from("kept:");
+                        let res = guard("h_read_line", || h.stream.read_line(&mut text))?;
+                        match (std::str::from_utf8(want), res) {
+                            (Ok(w), Ok(n)) => {
+                                if text.strip_prefix("kept:") != Some(w) || n != w.len() {
+                                    return Err(Fail::new("mismatch|h_read_line|bytes|model_bytes|other_bytes", format!("read_line on {} from {} returned {} and the string {:?} (expected the kept prefix followed by {} bytes)", hp, h.pos, n, text.chars().take(40).collect::<String>(), w.len())));
+                                }
+                                h.pos += n as u64;
+                            }
+                            (Err(_), Err(e)) if e.kind() == std::io::ErrorKind::InvalidData => {
+                                // (std documents "buf is unchanged" only for read_to_string; not asserted here)
+                                if !text.starts_with("kept:") {
+                                    return Err(Fail::new("mismatch|h_read_line|invalid_utf8|prefix_kept|changed", format!("read_line on {} from {} failed with InvalidData and damaged what the destination string already held", hp, h.pos)));
+                                }
+                                // the position after the failure is unspecified: resynchronise
+                                let p = guard("h_pos", || h.stream.stream_position())?.map_err(|e| Fail::new("mismatch|h_pos|valid|Ok|Err", e.to_string()))?;
+                                if p < h.pos || p > len {
+                                    return Err(Fail::new("mismatch|h_pos|after_failed_read_line|in_range|out_of_range", format!("position {} after failed read_line (was {}, len {})", p, h.pos, len)));
+                                }
+                                h.pos = p;
+                            }
+                            (Ok(_), Err(e)) => return Err(Fail::new("mismatch|h_read_line|valid|Ok|Err", format!("read_line on {} failed: {}", hp, e))),
+                            (Err(_), Err(e)) => return Err(Fail::new("mismatch|h_read_line|invalid_utf8|InvalidData|other_err", format!("read_line on {} over non-UTF-8 bytes failed with {:?}: {}", hp, e.kind(), e))),
+                            (Err(_), Ok(n)) => return Err(Fail::new("mismatch|h_read_line|invalid_utf8|Err|Ok", format!("read_line on {} over non-UTF-8 bytes returned Ok({})", hp, n))),
+                        }
+                    }
+                    2 => {
+                        self.trace.push(format!("h{}.skip_until({:#x}) [pos {} len {}]", slot, byte, h.pos, len));
+                        let want = match rest.iter().position(|b| b == byte) {
+                            Some(i) => i + 1,
+                            None => rest.len(),
+                        };
+                        let res = guard("h_skip_until", || h.stream.skip_until(*byte))?;
+                        match res {
+                            Ok(n) if n == want => h.pos += n as u64,
+                            Ok(n) => return Err(Fail::new("mismatch|h_skip_until|count|model|other", format!("skip_until({:#x}) on {} from {} skipped {} bytes, expected {}", byte, hp, h.pos, n, want))),
+                            Err(e) => return Err(Fail::new("mismatch|h_skip_until|valid|Ok|Err", format!("skip_until on {} failed: {}", hp, e))),
+                        }
+                    }
+                    _ => {
+                        self.trace.push(format!("h{}.read_until({:#x}) [pos {} len {}]", slot, byte, h.pos, len));
+                        let mut v = Vec::new();
+                        let res = guard("h_read_until", || h.stream.read_until(*byte, &mut v))?;
+                        if let Err(e) = res {
+                            return Err(Fail::new("mismatch|h_read_until|valid|Ok|Err", format!("read_until on {} failed: {}", hp, e)));
+                        }
+                        let want = match rest.iter().position(|b| b == byte) {
+                            Some(i) => &rest[..=i],
+                            None => rest,
+                        };
+                        if v != want {
+                            return Err(Fail::new("mismatch|h_read_until|bytes|model_bytes|other_bytes", describe_diff(&format!("{} read_until from {}", hp, h.pos), want, &v)));
+                        }
+                        h.pos += v.len() as u64;
+                    }
                 }
-                h.pos += v.len() as u64;
             }
             Op::HRewind { .. } => {
                 self.trace.push(format!("h{}.rewind() [pos {} len {}]", slot, h.pos, len));
@@ -537,6 +605,35 @@ impl Engine {
                 match got {
                     Ok(p) if p == h.pos => {}
                     other => return Err(Fail::new("mismatch|h_pos|valid|model_pos|other", format!("stream_position() of {} is {:?}, expected {}", hp, other, h.pos))),
+                }
+            }
+            Op::HReadToEnd { .. } if self.op_index % 4 == 3 => {
+                // Read::read_to_string: appends to a String; non-UTF-8 content -> InvalidData, String unchanged
+                self.trace.push(format!("h{}.read_to_string() [pos {} len {}]", slot, h.pos, len));
+                let data = stream_data(&self.model, &h.path).to_vec();
+                let rest = &data[h.pos as usize..];
+                let mut text = String::from("kept:");
+                let res = guard("h_read_to_string", || h.stream.read_to_string(&mut text))?;
+                match (std::str::from_utf8(rest), res) {
+                    (Ok(w), Ok(n)) => {
+                        if text.strip_prefix("kept:") != Some(w) || n != w.len() {
+                            return Err(Fail::new("mismatch|h_read_to_string|bytes|model_bytes|other_bytes", format!("read_to_string on {} from {} returned {} and a string of {} bytes (expected the kept prefix followed by {} bytes)", hp, h.pos, n, text.len(), w.len())));
+                        }
+                        h.pos = len;
+                    }
+                    (Err(_), Err(e)) if e.kind() == std::io::ErrorKind::InvalidData => {
+                        if text != "kept:" {
+                            return Err(Fail::new("mismatch|h_read_to_string|invalid_utf8|string_unchanged|changed", format!("read_to_string on {} from {} failed with InvalidData but changed the destination string", hp, h.pos)));
+                        }
+                        let p = guard("h_pos", || h.stream.stream_position())?.map_err(|e| Fail::new("mismatch|h_pos|valid|Ok|Err", e.to_string()))?;
+                        if p < h.pos || p > len {
+                            return Err(Fail::new("mismatch|h_pos|after_failed_read_to_string|in_range|out_of_range", format!("position {} after failed read_to_string (was {}, len {})", p, h.pos, len)));
+                        }
+                        h.pos = p;
+                    }
+                    (Ok(_), Err(e)) => return Err(Fail::new("mismatch|h_read_to_string|valid|Ok|Err", format!("read_to_string on {} failed: {}", hp, e))),
+                    (Err(_), Err(e)) => return Err(Fail::new("mismatch|h_read_to_string|invalid_utf8|InvalidData|other_err", format!("read_to_string on {} over non-UTF-8 bytes failed with {:?}: {}", hp, e.kind(), e))),
+                    (Err(_), Ok(n)) => return Err(Fail::new("mismatch|h_read_to_string|invalid_utf8|Err|Ok", format!("read_to_string on {} over non-UTF-8 bytes returned Ok({})", hp, n))),
                 }
             }
             Op::HReadToEnd { .. } => {
